@@ -162,6 +162,8 @@ def stepPorts (st : PortsSt) (op : String) : PortsSt :=
     let (a, v) := hexPair rest
     if 0xfee000 ≤ a ∧ a ≤ 0xfee00a then ap (a - 0xfee000) (.writeDDR (BitVec.ofNat 8 v)) st
     else if 0xffffd0 ≤ a ∧ a ≤ 0xffffda then ap (a - 0xffffd0) (.writeDR (BitVec.ofNat 8 v)) st
+    -- any other I/O register (pull-up control, bus controller, reserved cells): not part of a port — inert for C16
+    else if (0xfee00b ≤ a ∧ a ≤ 0xfee0ff) ∨ (0xffffdb ≤ a ∧ a ≤ 0xffffe9) then { st with res := st.res.push "k" }
     else { st with dom := false, res := st.res.push "?" }
   | "r" =>
     let a := hexD rest
